@@ -41,7 +41,7 @@ Blank == [k |-> NoK, e |-> NoE, b |-> NoB, nx |-> FALSE]
 
 VARIABLES table,    \* Key -> Ent or NoE          (the otter hash map)
           ek, ev,   \* entry fields k, v
-          lk,       \* Ent -> [w : {"no","wait","held"}, r : Nat]   (sync.RWMutex)
+          lk,       \* Ent -> [w : {"no","wait","held"}, r : set of callers holding the read lock]   (sync.RWMutex)
           entFree,  \* entry pool
           bc,       \* Buf -> Tag or Junk         (what the buffer holds)
           bufFree,  \* buffer pool
@@ -54,7 +54,7 @@ vars == <<table, ek, ev, lk, entFree, bc, bufFree, pend, garb, bg, ver, pc, loc,
 
 Init == /\ table = [k \in Key |-> NoE]
         /\ ek = [e \in Ent |-> NoK] /\ ev = [e \in Ent |-> NoB]
-        /\ lk = [e \in Ent |-> [w |-> "no", r |-> 0]]
+        /\ lk = [e \in Ent |-> [w |-> "no", r |-> {}]]
         /\ entFree = Ent /\ bufFree = Buf
         /\ bc = [b \in Buf |-> Junk]
         /\ pend = {} /\ garb = {} /\ bg = NoE
@@ -64,7 +64,7 @@ Init == /\ table = [k \in Key |-> NoE]
         /\ res = [p \in Proc |-> Junk]
 
 Goto(p, s) == pc' = [pc EXCEPT ![p] = s]
-RUnlock(e) == lk' = [lk EXCEPT ![e].r = @ - 1]
+RUnlock(e, p) == lk' = [lk EXCEPT ![e].r = @ \ {p}]
 
 \* ---- Store
 StoreBegin(p, k, nx) ==
@@ -87,7 +87,7 @@ StoreLock(p) ==
 
 StoreFill(p) ==
     LET e == loc[p].e IN
-    /\ pc[p] = "s_fill" /\ lk[e].r = 0
+    /\ pc[p] = "s_fill" /\ lk[e].r = {}
     /\ ek' = [ek EXCEPT ![e] = loc[p].k] /\ ev' = [ev EXCEPT ![e] = loc[p].b]
     /\ lk' = [lk EXCEPT ![e].w = "no"]
     /\ Goto(p, "s_set")
@@ -113,7 +113,7 @@ Collect(e) ==
     /\ e \in garb /\ \A p \in Proc : loc[p].e # e
     /\ garb' = garb \ {e}
     /\ ek' = [ek EXCEPT ![e] = NoK] /\ ev' = [ev EXCEPT ![e] = NoB]
-    /\ entFree' = entFree \cup {e} /\ bufFree' = bufFree \cup {ev[e]}
+    /\ entFree' = entFree \cup {e} /\ bufFree' = IF ev[e] # NoB THEN bufFree \cup {ev[e]} ELSE bufFree
     /\ UNCHANGED <<table, lk, bc, pend, bg, ver, pc, loc, res>>
 
 \* ---- Get
@@ -129,7 +129,7 @@ GetTry(p) ==
     LET e == loc[p].e IN
     /\ pc[p] = "g_try"
     /\ IF lk[e].w = "no"
-       THEN lk' = [lk EXCEPT ![e].r = @ + 1] /\ Goto(p, "g_chk") /\ UNCHANGED loc
+       THEN lk' = [lk EXCEPT ![e].r = @ \cup {p}] /\ Goto(p, "g_chk") /\ UNCHANGED loc
        ELSE Miss(p) /\ UNCHANGED lk
     /\ UNCHANGED <<table, ek, ev, entFree, bc, bufFree, pend, garb, bg, ver, res>>
 
@@ -137,16 +137,16 @@ GetCheck(p) ==
     LET e == loc[p].e IN
     /\ pc[p] = "g_chk"
     /\ IF ev[e] = NoB \/ (KeyRecheck /\ ek[e] # loc[p].k)
-       THEN Miss(p) /\ RUnlock(e)
+       THEN Miss(p) /\ RUnlock(e, p)
        ELSE /\ loc' = [loc EXCEPT ![p].b = ev[e]]
             /\ Goto(p, "g_copy")
-            /\ IF CopyUnderLock THEN UNCHANGED lk ELSE RUnlock(e)
+            /\ IF CopyUnderLock THEN UNCHANGED lk ELSE RUnlock(e, p)
     /\ UNCHANGED <<table, ek, ev, entFree, bc, bufFree, pend, garb, bg, ver, res>>
 
 GetCopy(p) ==
     /\ pc[p] = "g_copy"
     /\ res' = [res EXCEPT ![p] = bc[loc[p].b]]
-    /\ IF CopyUnderLock THEN RUnlock(loc[p].e) ELSE UNCHANGED lk
+    /\ IF CopyUnderLock THEN RUnlock(loc[p].e, p) ELSE UNCHANGED lk
     /\ Goto(p, "g_done")
     /\ UNCHANGED <<table, ek, ev, entFree, bc, bufFree, pend, garb, bg, ver, loc>>
 
@@ -168,7 +168,7 @@ NotifyLock(e) ==
     /\ UNCHANGED <<table, ek, ev, entFree, bc, bufFree, garb, ver, pc, loc, res>>
 
 NotifyRelease ==
-    /\ bg # NoE /\ (ReleaseLocks => lk[bg].r = 0)
+    /\ bg # NoE /\ (ReleaseLocks => lk[bg].r = {})
     /\ ek' = [ek EXCEPT ![bg] = NoK] /\ ev' = [ev EXCEPT ![bg] = NoB]
     /\ bufFree' = IF ev[bg] # NoB THEN bufFree \cup {ev[bg]} ELSE bufFree
     /\ entFree' = entFree \cup {bg}
@@ -190,7 +190,7 @@ FairSpec == Spec /\ \A p \in Proc : WF_vars(CodeStep(p))
 \* ---- properties
 TypeOK == /\ table \in [Key -> Ent \cup {NoE}]
           /\ ek \in [Ent -> Key \cup {NoK}] /\ ev \in [Ent -> Buf \cup {NoB}]
-          /\ \A e \in Ent : lk[e].w \in {"no", "wait", "held"} /\ lk[e].r \in 0..Cardinality(Proc)
+          /\ \A e \in Ent : lk[e].w \in {"no", "wait", "held"} /\ lk[e].r \subseteq Proc
           /\ entFree \subseteq Ent /\ bufFree \subseteq Buf /\ pend \subseteq Ent /\ garb \subseteq Ent
           /\ bg \in Ent \cup {NoE}
           /\ \A b \in Buf : bc[b] \in Tag \cup {Junk}
